@@ -126,6 +126,29 @@ def gen_steps(r, schema, k0, maxlen):
     return steps
 
 
+def _schema_direct(schema, k, k2, rel, ph):
+    found = None
+    for ai, a in enumerate(schema['assocs']):
+        if a['rel'] != rel:
+            continue
+        if a['tgt'] == k and a['src'] == k2 and a['tphrase'] == ph:
+            found = (ai, 0)
+        if a['src'] == k and a['tgt'] == k2 and a['sphrase'] == ph:
+            found = (ai, 1)
+    return found
+
+
+def _step_resolves(schema, k, k2, rel, ph):
+    """does class k have the link (k2, rel, ph), directly or in two hops through an association class (as Rel.step)"""
+    if _schema_direct(schema, k, k2, rel, ph) is not None:
+        return True
+    for a in schema['assocs']:
+        for (frm, to, p) in ((a['tgt'], a['src'], a['tphrase']), (a['src'], a['tgt'], a['sphrase'])):
+            if frm == k and a['rel'] == rel and p == ph and _schema_direct(schema, to, k2, rel, ph) is not None:
+                return True
+    return False
+
+
 def generate(ctx):
     rng = ctx.rng.fork('c09')
     n = ctx.pick(5000, 60000)
@@ -283,6 +306,19 @@ def _case(r, ctx, names):
                 steps = gen_steps(r, schema, k, 4)
                 if not steps:
                     continue
+                # handles of MIXED kinds: a list / QuerySet / generator may hold instances of several classes as long as every
+                # one of them has the first link of the chain (the subtypes of one supertype, both sides of an association
+                # class, the link class and a side that reaches the far side in two hops): the result is still the union
+                # of the per-instance results.  Own random stream: the rest of the case is as it was before this family.
+                rm = r.fork('mixed', len(queries))
+                if form in ('qset', 'list', 'gen') and rm.random() < 0.4:
+                    others = [k2 for k2 in range(ncls) if k2 != k and _step_resolves(schema, k2, *steps[0])]
+                    extra = [j for j in livei if kinds[j] in others]
+                    if extra:
+                        for _ in range(rm.randint(1, 3)):
+                            h.insert(rm.randint(0, len(h)), rm.choice(extra))
+                        if form == 'qset':
+                            h = list(dict.fromkeys(h))
                 kend = steps[-1][0]
                 queries.append([r.choice(['nav-many', 'nav-one']), form, h, steps, gen_qops(r, schema, kend),
                                 r.choice(['nav', 'attr'])])
@@ -720,6 +756,8 @@ def run_impl(case):
         got = run_query(model, q)
         obs.append(got)
         stats['q_' + q[0]] = stats.get('q_' + q[0], 0) + 1
+        if q[0].startswith('nav') and len(set(rel.kind[j] for j in q[2])) >= 2:
+            stats['nav_mixed_kinds'] = stats.get('nav_mixed_kinds', 0) + 1
         want = expected(rel, q)
         if want == 'skip':
             # navigate_subtype: the one related subtype instance, when exactly one subtype link is populated
